@@ -1351,6 +1351,34 @@ func fieldLoadOfLocalCopy(v ssa.Value) (*ssa.Alloc, *types.Var, error) {
 // the loop's local copy of the element or of src[idx] directly. Returns the ranged list, a key identifying
 // "the current element" (the local copy, or the index value) and F.
 func (g *genModel) elemFieldOf(v ssa.Value, hdr *ssa.BasicBlock) (ssa.Value, ssa.Value, *types.Var, error) {
+	// a value-receiver getter applied to the current element (e.id() with func (e T) id() string { return e.F }):
+	// field F of that element
+	if c, ok := v.(*ssa.Call); ok && len(c.Call.Args) == 1 {
+		if fidx, ok := valueGetterField(g.p, c.Call.StaticCallee()); ok {
+			if ld, ok := c.Call.Args[0].(*ssa.UnOp); ok && ld.Op == token.MUL {
+				switch x := ld.X.(type) {
+				case *ssa.Alloc:
+					if st, ok := x.Type().Underlying().(*types.Pointer).Elem().Underlying().(*types.Struct); ok && fidx < st.NumFields() {
+						src, err := g.rangeCopySource(x, hdr)
+						if err != nil {
+							return nil, nil, nil, err
+						}
+						return src, x, st.Field(fidx), nil
+					}
+				case *ssa.IndexAddr:
+					if st, ok := x.Type().Underlying().(*types.Pointer).Elem().Underlying().(*types.Struct); ok && fidx < st.NumFields() {
+						if err := isRangeIndexOf(x.Index, x.X); err != nil {
+							return nil, nil, nil, err
+						}
+						if h := rangeHeaderOf(x.Index); h != hdr {
+							return nil, nil, nil, fmt.Errorf("element is taken from a different loop")
+						}
+						return x.X, x.Index, st.Field(fidx), nil
+					}
+				}
+			}
+		}
+	}
 	if al, fld, err := fieldLoadOfLocalCopy(v); err == nil {
 		src, err := g.rangeCopySource(al, hdr)
 		if err != nil {
@@ -1381,6 +1409,53 @@ func (g *genModel) elemFieldOf(v ssa.Value, hdr *ssa.BasicBlock) (ssa.Value, ssa
 		return nil, nil, nil, fmt.Errorf("element is not a struct")
 	}
 	return ia.X, ia.Index, st.Field(fa.Field), nil
+}
+
+// valueGetterField: h is a one-block method with a by-value struct receiver and no other parameter that returns
+// one field of its receiver; returns that field's index.
+func valueGetterField(p *Prog, h *ssa.Function) (int, bool) {
+	if h == nil || !p.InModule(h) || len(h.Blocks) != 1 || len(h.Params) != 1 {
+		return 0, false
+	}
+	if _, ok := h.Params[0].Type().Underlying().(*types.Struct); !ok {
+		return 0, false
+	}
+	ret, ok := h.Blocks[0].Instrs[len(h.Blocks[0].Instrs)-1].(*ssa.Return)
+	if !ok || len(ret.Results) != 1 {
+		return 0, false
+	}
+	switch t := ret.Results[0].(type) {
+	case *ssa.Field:
+		if t.X == ssa.Value(h.Params[0]) {
+			return t.Field, true
+		}
+	case *ssa.UnOp:
+		if t.Op != token.MUL {
+			return 0, false
+		}
+		fa, ok := t.X.(*ssa.FieldAddr)
+		if !ok {
+			return 0, false
+		}
+		al, ok := fa.X.(*ssa.Alloc)
+		if !ok {
+			return 0, false
+		}
+		// the receiver spilled to a local
+		n := 0
+		for _, r := range *al.Referrers() {
+			if st, ok := r.(*ssa.Store); ok {
+				if st.Addr != ssa.Value(al) || st.Val != ssa.Value(h.Params[0]) {
+					return 0, false
+				}
+				n++
+			}
+		}
+		if n == 1 {
+			return fa.Field, true
+		}
+	}
+	return 0, false
 }
 
 // rangeCopySource: local receives exactly one store, *local = *(&src[idx]) inside the loop with header hdr,
@@ -1615,7 +1690,8 @@ func (g *genModel) decodedFrom(doc *ssa.Alloc) (string, error) {
 					if !ok || nd.Call.StaticCallee() == nil || nd.Call.StaticCallee().String() != "encoding/json.NewDecoder" {
 						return "", fmt.Errorf("decoder is not json.NewDecoder(file)")
 					}
-					mi, ok := nd.Call.Args[0].(*ssa.MakeInterface)
+					// the reader: the file itself, or an io.Reader parameter bound to it at the call site
+					mi, ok := g.deref(nd.Call.Args[0]).(*ssa.MakeInterface)
 					if !ok {
 						return "", fmt.Errorf("decoder source is not a file")
 					}
